@@ -89,6 +89,12 @@ def render_encoder(which):
     if outer is None:
         raise FstError(f'{which} not found')
     inner = [n for n in ast.walk(outer) if isinstance(n, ast.FunctionDef) and n.name == 'render_literal_value']
+    if not inner:
+        # the compiler subclass may live in a helper shared by the DML and DDL renderers: any override in the module reached from `which`
+        called = {c.func.id for c in ast.walk(outer) if isinstance(c, ast.Call) and isinstance(c.func, ast.Name)}
+        for fn_ in repo.module_ast(RENDER).body:
+            if isinstance(fn_, ast.FunctionDef) and fn_.name in called:
+                inner += [n for n in ast.walk(fn_) if isinstance(n, ast.FunctionDef) and n.name == 'render_literal_value']
     if len(inner) != 1:
         raise FstError(f'{which}: {len(inner)} render_literal_value overrides')
     try:
